@@ -88,206 +88,207 @@ package internal
 //
 //
 //
+//
 // GENERATED BEGIN (by /verif/govc/schema/gen_bit64.py)
 //@ func Bit64.IterAsI64
 //@   requires 0 <= pos && pos <= len(s) && min(nplus(n), pc(uint64(b))) <= len(s) - pos
 //@   ensures #count result == min(nplus(n), pc(uint64(b)))
-//@   ensures #members(count,range) forall k int :: 0 <= k && k < result ==> member(b, uint64(s[pos+k]-add)) && rank(b, uint64(s[pos+k]-add)) == k
+//@   ensures #members(count,range) forall p int :: pos <= p && p < pos + result ==> member(b, uint64(s[p]-add)) && rank(b, uint64(s[p]-add)) == p - pos
 //@   modifies s[pos : pos+min(nplus(n), pc(uint64(b)))]
 //@   loop 1
 //@     invariant #range 0 <= i && i <= 64 && uint64(w) == uint64(b) & ^lowmask(uint64(i)) && l == pc(uint64(b))
 //@     invariant #count c == rank(b, uint64(i)) && cursor == pos + c && 0 <= c && c <= nplus(n)
-//@     invariant #members(count,range) forall k int :: 0 <= k && k < c ==> member(b, uint64(s[pos+k]-add)) && rank(b, uint64(s[pos+k]-add)) == k
+//@     invariant #members(count,range) forall p int :: pos <= p && p < pos + c ==> member(b, uint64(s[p]-add)) && rank(b, uint64(s[p]-add)) == p - pos
 //@     use [range,count] pc_add(uint64(b) & lowmask(uint64(i)), uint64(i)), pc_split(uint64(b), uint64(i)), pc_split(uint64(b), uint64(i)+1), pc_zero(uint64(b) & ^lowmask(uint64(i))), pc_zero(uint64(b) & ^lowmask(uint64(i)+1)), pc_zero(uint64(b) & lowmask(uint64(i)))
 //@     exit #count c == min(nplus(n), pc(uint64(b))) && cursor == pos + c
-//@     exit #members(count,range) forall k int :: 0 <= k && k < c ==> member(b, uint64(s[pos+k]-add)) && rank(b, uint64(s[pos+k]-add)) == k
+//@     exit #members(count,range) forall p int :: pos <= p && p < pos + c ==> member(b, uint64(s[p]-add)) && rank(b, uint64(s[p]-add)) == p - pos
 //@   loop 2
 //@     invariant #range uint64(w) == uint64(b) & ^lowmask(tzb(uint64(w))) && l == pc(uint64(b))
 //@     invariant #count c == rank(b, tzb(uint64(w))) && cursor == pos + c && 0 <= c && c <= nplus(n)
-//@     invariant #members(count,range) forall k int :: 0 <= k && k < c ==> member(b, uint64(s[pos+k]-add)) && rank(b, uint64(s[pos+k]-add)) == k
+//@     invariant #members(count,range) forall p int :: pos <= p && p < pos + c ==> member(b, uint64(s[p]-add)) && rank(b, uint64(s[p]-add)) == p - pos
 //@     use [range,count] tz_def(uint64(w)), tz_def(uint64(w) & ^(uint64(1) << tzb(uint64(w)))), pc_add(uint64(b) & lowmask(tzb(uint64(w))), tzb(uint64(w))), pc_split(uint64(b), tzb(uint64(w))), pc_zero(uint64(w)), pc_zero(uint64(b) & lowmask(tzb(uint64(w))))
 //@     exit #count c == min(nplus(n), pc(uint64(b))) && cursor == pos + c
-//@     exit #members(count,range) forall k int :: 0 <= k && k < c ==> member(b, uint64(s[pos+k]-add)) && rank(b, uint64(s[pos+k]-add)) == k
+//@     exit #members(count,range) forall p int :: pos <= p && p < pos + c ==> member(b, uint64(s[p]-add)) && rank(b, uint64(s[p]-add)) == p - pos
 //
 //@ func Bit64.IterAsI32
 //@   requires 0 <= pos && pos <= len(s) && min(nplus(n), pc(uint64(b))) <= len(s) - pos
 //@   ensures #count result == min(nplus(n), pc(uint64(b)))
-//@   ensures #members(count,range) forall k int :: 0 <= k && k < result ==> member(b, uint64(s[pos+k]-add)) && rank(b, uint64(s[pos+k]-add)) == k
+//@   ensures #members(count,range) forall p int :: pos <= p && p < pos + result ==> member(b, uint64(s[p]-add)) && rank(b, uint64(s[p]-add)) == p - pos
 //@   modifies s[pos : pos+min(nplus(n), pc(uint64(b)))]
 //@   loop 1
 //@     invariant #range 0 <= i && i <= 64 && uint64(w) == uint64(b) & ^lowmask(uint64(i)) && l == pc(uint64(b))
 //@     invariant #count c == rank(b, uint64(i)) && cursor == pos + c && 0 <= c && c <= nplus(n)
-//@     invariant #members(count,range) forall k int :: 0 <= k && k < c ==> member(b, uint64(s[pos+k]-add)) && rank(b, uint64(s[pos+k]-add)) == k
+//@     invariant #members(count,range) forall p int :: pos <= p && p < pos + c ==> member(b, uint64(s[p]-add)) && rank(b, uint64(s[p]-add)) == p - pos
 //@     use [range,count] pc_add(uint64(b) & lowmask(uint64(i)), uint64(i)), pc_split(uint64(b), uint64(i)), pc_split(uint64(b), uint64(i)+1), pc_zero(uint64(b) & ^lowmask(uint64(i))), pc_zero(uint64(b) & ^lowmask(uint64(i)+1)), pc_zero(uint64(b) & lowmask(uint64(i)))
 //@     exit #count c == min(nplus(n), pc(uint64(b))) && cursor == pos + c
-//@     exit #members(count,range) forall k int :: 0 <= k && k < c ==> member(b, uint64(s[pos+k]-add)) && rank(b, uint64(s[pos+k]-add)) == k
+//@     exit #members(count,range) forall p int :: pos <= p && p < pos + c ==> member(b, uint64(s[p]-add)) && rank(b, uint64(s[p]-add)) == p - pos
 //@   loop 2
 //@     invariant #range uint64(w) == uint64(b) & ^lowmask(tzb(uint64(w))) && l == pc(uint64(b))
 //@     invariant #count c == rank(b, tzb(uint64(w))) && cursor == pos + c && 0 <= c && c <= nplus(n)
-//@     invariant #members(count,range) forall k int :: 0 <= k && k < c ==> member(b, uint64(s[pos+k]-add)) && rank(b, uint64(s[pos+k]-add)) == k
+//@     invariant #members(count,range) forall p int :: pos <= p && p < pos + c ==> member(b, uint64(s[p]-add)) && rank(b, uint64(s[p]-add)) == p - pos
 //@     use [range,count] tz_def(uint64(w)), tz_def(uint64(w) & ^(uint64(1) << tzb(uint64(w)))), pc_add(uint64(b) & lowmask(tzb(uint64(w))), tzb(uint64(w))), pc_split(uint64(b), tzb(uint64(w))), pc_zero(uint64(w)), pc_zero(uint64(b) & lowmask(tzb(uint64(w))))
 //@     exit #count c == min(nplus(n), pc(uint64(b))) && cursor == pos + c
-//@     exit #members(count,range) forall k int :: 0 <= k && k < c ==> member(b, uint64(s[pos+k]-add)) && rank(b, uint64(s[pos+k]-add)) == k
+//@     exit #members(count,range) forall p int :: pos <= p && p < pos + c ==> member(b, uint64(s[p]-add)) && rank(b, uint64(s[p]-add)) == p - pos
 //
 //@ func Bit64.IterAsU32
 //@   requires 0 <= pos && pos <= len(s) && min(nplus(n), pc(uint64(b))) <= len(s) - pos
 //@   ensures #count result == min(nplus(n), pc(uint64(b)))
-//@   ensures #members(count,range) forall k int :: 0 <= k && k < result ==> member(b, uint64(s[pos+k]-add)) && rank(b, uint64(s[pos+k]-add)) == k
+//@   ensures #members(count,range) forall p int :: pos <= p && p < pos + result ==> member(b, uint64(s[p]-add)) && rank(b, uint64(s[p]-add)) == p - pos
 //@   modifies s[pos : pos+min(nplus(n), pc(uint64(b)))]
 //@   loop 1
 //@     invariant #range 0 <= i && i <= 64 && uint64(w) == uint64(b) & ^lowmask(uint64(i)) && l == pc(uint64(b))
 //@     invariant #count c == rank(b, uint64(i)) && cursor == pos + c && 0 <= c && c <= nplus(n)
-//@     invariant #members(count,range) forall k int :: 0 <= k && k < c ==> member(b, uint64(s[pos+k]-add)) && rank(b, uint64(s[pos+k]-add)) == k
+//@     invariant #members(count,range) forall p int :: pos <= p && p < pos + c ==> member(b, uint64(s[p]-add)) && rank(b, uint64(s[p]-add)) == p - pos
 //@     use [range,count] pc_add(uint64(b) & lowmask(uint64(i)), uint64(i)), pc_split(uint64(b), uint64(i)), pc_split(uint64(b), uint64(i)+1), pc_zero(uint64(b) & ^lowmask(uint64(i))), pc_zero(uint64(b) & ^lowmask(uint64(i)+1)), pc_zero(uint64(b) & lowmask(uint64(i)))
 //@     exit #count c == min(nplus(n), pc(uint64(b))) && cursor == pos + c
-//@     exit #members(count,range) forall k int :: 0 <= k && k < c ==> member(b, uint64(s[pos+k]-add)) && rank(b, uint64(s[pos+k]-add)) == k
+//@     exit #members(count,range) forall p int :: pos <= p && p < pos + c ==> member(b, uint64(s[p]-add)) && rank(b, uint64(s[p]-add)) == p - pos
 //@   loop 2
 //@     invariant #range uint64(w) == uint64(b) & ^lowmask(tzb(uint64(w))) && l == pc(uint64(b))
 //@     invariant #count c == rank(b, tzb(uint64(w))) && cursor == pos + c && 0 <= c && c <= nplus(n)
-//@     invariant #members(count,range) forall k int :: 0 <= k && k < c ==> member(b, uint64(s[pos+k]-add)) && rank(b, uint64(s[pos+k]-add)) == k
+//@     invariant #members(count,range) forall p int :: pos <= p && p < pos + c ==> member(b, uint64(s[p]-add)) && rank(b, uint64(s[p]-add)) == p - pos
 //@     use [range,count] tz_def(uint64(w)), tz_def(uint64(w) & ^(uint64(1) << tzb(uint64(w)))), pc_add(uint64(b) & lowmask(tzb(uint64(w))), tzb(uint64(w))), pc_split(uint64(b), tzb(uint64(w))), pc_zero(uint64(w)), pc_zero(uint64(b) & lowmask(tzb(uint64(w))))
 //@     exit #count c == min(nplus(n), pc(uint64(b))) && cursor == pos + c
-//@     exit #members(count,range) forall k int :: 0 <= k && k < c ==> member(b, uint64(s[pos+k]-add)) && rank(b, uint64(s[pos+k]-add)) == k
+//@     exit #members(count,range) forall p int :: pos <= p && p < pos + c ==> member(b, uint64(s[p]-add)) && rank(b, uint64(s[p]-add)) == p - pos
 //
 //@ func Bit64.IterAsI16
 //@   requires 0 <= pos && pos <= len(s) && min(nplus(n), pc(uint64(b))) <= len(s) - pos
 //@   ensures #count result == min(nplus(n), pc(uint64(b)))
-//@   ensures #members(count,range) forall k int :: 0 <= k && k < result ==> member(b, uint64(s[pos+k]-add)) && rank(b, uint64(s[pos+k]-add)) == k
+//@   ensures #members(count,range) forall p int :: pos <= p && p < pos + result ==> member(b, uint64(s[p]-add)) && rank(b, uint64(s[p]-add)) == p - pos
 //@   modifies s[pos : pos+min(nplus(n), pc(uint64(b)))]
 //@   loop 1
 //@     invariant #range 0 <= i && i <= 64 && uint64(w) == uint64(b) & ^lowmask(uint64(i)) && l == pc(uint64(b))
 //@     invariant #count c == rank(b, uint64(i)) && cursor == pos + c && 0 <= c && c <= nplus(n)
-//@     invariant #members(count,range) forall k int :: 0 <= k && k < c ==> member(b, uint64(s[pos+k]-add)) && rank(b, uint64(s[pos+k]-add)) == k
+//@     invariant #members(count,range) forall p int :: pos <= p && p < pos + c ==> member(b, uint64(s[p]-add)) && rank(b, uint64(s[p]-add)) == p - pos
 //@     use [range,count] pc_add(uint64(b) & lowmask(uint64(i)), uint64(i)), pc_split(uint64(b), uint64(i)), pc_split(uint64(b), uint64(i)+1), pc_zero(uint64(b) & ^lowmask(uint64(i))), pc_zero(uint64(b) & ^lowmask(uint64(i)+1)), pc_zero(uint64(b) & lowmask(uint64(i)))
 //@     exit #count c == min(nplus(n), pc(uint64(b))) && cursor == pos + c
-//@     exit #members(count,range) forall k int :: 0 <= k && k < c ==> member(b, uint64(s[pos+k]-add)) && rank(b, uint64(s[pos+k]-add)) == k
+//@     exit #members(count,range) forall p int :: pos <= p && p < pos + c ==> member(b, uint64(s[p]-add)) && rank(b, uint64(s[p]-add)) == p - pos
 //@   loop 2
 //@     invariant #range uint64(w) == uint64(b) & ^lowmask(tzb(uint64(w))) && l == pc(uint64(b))
 //@     invariant #count c == rank(b, tzb(uint64(w))) && cursor == pos + c && 0 <= c && c <= nplus(n)
-//@     invariant #members(count,range) forall k int :: 0 <= k && k < c ==> member(b, uint64(s[pos+k]-add)) && rank(b, uint64(s[pos+k]-add)) == k
+//@     invariant #members(count,range) forall p int :: pos <= p && p < pos + c ==> member(b, uint64(s[p]-add)) && rank(b, uint64(s[p]-add)) == p - pos
 //@     use [range,count] tz_def(uint64(w)), tz_def(uint64(w) & ^(uint64(1) << tzb(uint64(w)))), pc_add(uint64(b) & lowmask(tzb(uint64(w))), tzb(uint64(w))), pc_split(uint64(b), tzb(uint64(w))), pc_zero(uint64(w)), pc_zero(uint64(b) & lowmask(tzb(uint64(w))))
 //@     exit #count c == min(nplus(n), pc(uint64(b))) && cursor == pos + c
-//@     exit #members(count,range) forall k int :: 0 <= k && k < c ==> member(b, uint64(s[pos+k]-add)) && rank(b, uint64(s[pos+k]-add)) == k
+//@     exit #members(count,range) forall p int :: pos <= p && p < pos + c ==> member(b, uint64(s[p]-add)) && rank(b, uint64(s[p]-add)) == p - pos
 //
 //@ func Bit64.IterAsI8
 //@   requires 0 <= pos && pos <= len(s) && min(nplus(n), pc(uint64(b))) <= len(s) - pos
 //@   ensures #count result == min(nplus(n), pc(uint64(b)))
-//@   ensures #members(count,range) forall k int :: 0 <= k && k < result ==> member(b, uint64(s[pos+k]-add)) && rank(b, uint64(s[pos+k]-add)) == k
+//@   ensures #members(count,range) forall p int :: pos <= p && p < pos + result ==> member(b, uint64(s[p]-add)) && rank(b, uint64(s[p]-add)) == p - pos
 //@   modifies s[pos : pos+min(nplus(n), pc(uint64(b)))]
 //@   loop 1
 //@     invariant #range 0 <= i && i <= 64 && uint64(w) == uint64(b) & ^lowmask(uint64(i)) && l == pc(uint64(b))
 //@     invariant #count c == rank(b, uint64(i)) && cursor == pos + c && 0 <= c && c <= nplus(n)
-//@     invariant #members(count,range) forall k int :: 0 <= k && k < c ==> member(b, uint64(s[pos+k]-add)) && rank(b, uint64(s[pos+k]-add)) == k
+//@     invariant #members(count,range) forall p int :: pos <= p && p < pos + c ==> member(b, uint64(s[p]-add)) && rank(b, uint64(s[p]-add)) == p - pos
 //@     use [range,count] pc_add(uint64(b) & lowmask(uint64(i)), uint64(i)), pc_split(uint64(b), uint64(i)), pc_split(uint64(b), uint64(i)+1), pc_zero(uint64(b) & ^lowmask(uint64(i))), pc_zero(uint64(b) & ^lowmask(uint64(i)+1)), pc_zero(uint64(b) & lowmask(uint64(i)))
 //@     exit #count c == min(nplus(n), pc(uint64(b))) && cursor == pos + c
-//@     exit #members(count,range) forall k int :: 0 <= k && k < c ==> member(b, uint64(s[pos+k]-add)) && rank(b, uint64(s[pos+k]-add)) == k
+//@     exit #members(count,range) forall p int :: pos <= p && p < pos + c ==> member(b, uint64(s[p]-add)) && rank(b, uint64(s[p]-add)) == p - pos
 //@   loop 2
 //@     invariant #range uint64(w) == uint64(b) & ^lowmask(tzb(uint64(w))) && l == pc(uint64(b))
 //@     invariant #count c == rank(b, tzb(uint64(w))) && cursor == pos + c && 0 <= c && c <= nplus(n)
-//@     invariant #members(count,range) forall k int :: 0 <= k && k < c ==> member(b, uint64(s[pos+k]-add)) && rank(b, uint64(s[pos+k]-add)) == k
+//@     invariant #members(count,range) forall p int :: pos <= p && p < pos + c ==> member(b, uint64(s[p]-add)) && rank(b, uint64(s[p]-add)) == p - pos
 //@     use [range,count] tz_def(uint64(w)), tz_def(uint64(w) & ^(uint64(1) << tzb(uint64(w)))), pc_add(uint64(b) & lowmask(tzb(uint64(w))), tzb(uint64(w))), pc_split(uint64(b), tzb(uint64(w))), pc_zero(uint64(w)), pc_zero(uint64(b) & lowmask(tzb(uint64(w))))
 //@     exit #count c == min(nplus(n), pc(uint64(b))) && cursor == pos + c
-//@     exit #members(count,range) forall k int :: 0 <= k && k < c ==> member(b, uint64(s[pos+k]-add)) && rank(b, uint64(s[pos+k]-add)) == k
+//@     exit #members(count,range) forall p int :: pos <= p && p < pos + c ==> member(b, uint64(s[p]-add)) && rank(b, uint64(s[p]-add)) == p - pos
 //
 //@ func Bit64.RIterAsI64
 //@   requires 0 <= pos && pos <= len(s) && min(nplus(n), pc(uint64(b))) <= len(s) - pos
 //@   ensures #count result == min(nplus(n), pc(uint64(b)))
-//@   ensures #members(count,range) forall k int :: 0 <= k && k < result ==> member(b, uint64(s[pos+k]-add)) && rrank(b, uint64(s[pos+k]-add)) == k
+//@   ensures #members(count,range) forall p int :: pos <= p && p < pos + result ==> member(b, uint64(s[p]-add)) && rrank(b, uint64(s[p]-add)) == p - pos
 //@   modifies s[pos : pos+min(nplus(n), pc(uint64(b)))]
 //@   loop 1
 //@     invariant #range -1 <= i && i <= 63 && uint64(w) == uint64(b) & lowmask(uint64(i)+1) && uint64(w) != 0 && l == pc(uint64(b))
 //@     invariant #count c == rrank(b, uint64(i)) && cursor == pos + c && 0 <= c && c <= nplus(n)
-//@     invariant #members(count,range) forall k int :: 0 <= k && k < c ==> member(b, uint64(s[pos+k]-add)) && rrank(b, uint64(s[pos+k]-add)) == k
+//@     invariant #members(count,range) forall p int :: pos <= p && p < pos + c ==> member(b, uint64(s[p]-add)) && rrank(b, uint64(s[p]-add)) == p - pos
 //@     use [range,count] pc_add(uint64(b) & ^lowmask(uint64(i)+1), uint64(i)), pc_split(uint64(b), uint64(i)+1), pc_split(uint64(b), uint64(i)), pc_zero(uint64(b) & lowmask(uint64(i)+1)), pc_zero(uint64(b) & lowmask(uint64(i))), pc_zero(uint64(b) & ^lowmask(uint64(i)+1))
 //@     exit #count c == min(nplus(n), pc(uint64(b))) && cursor == pos + c
-//@     exit #members(count,range) forall k int :: 0 <= k && k < c ==> member(b, uint64(s[pos+k]-add)) && rrank(b, uint64(s[pos+k]-add)) == k
+//@     exit #members(count,range) forall p int :: pos <= p && p < pos + c ==> member(b, uint64(s[p]-add)) && rrank(b, uint64(s[p]-add)) == p - pos
 //@   loop 2
 //@     invariant #range uint64(w) == uint64(b) & lowmask(blb(uint64(w))) && l == pc(uint64(b))
 //@     invariant #count c == pc(uint64(b) & ^lowmask(blb(uint64(w)))) && cursor == pos + c && 0 <= c && c <= nplus(n)
-//@     invariant #members(count,range) forall k int :: 0 <= k && k < c ==> member(b, uint64(s[pos+k]-add)) && rrank(b, uint64(s[pos+k]-add)) == k
+//@     invariant #members(count,range) forall p int :: pos <= p && p < pos + c ==> member(b, uint64(s[p]-add)) && rrank(b, uint64(s[p]-add)) == p - pos
 //@     use [range,count] bl_def(uint64(w)), bl_def(uint64(w) & ^(uint64(1) << (blb(uint64(w))-1))), pc_add(uint64(b) & ^lowmask(blb(uint64(w))), blb(uint64(w))-1), pc_split(uint64(b), blb(uint64(w))), pc_zero(uint64(w)), pc_zero(uint64(b) & ^lowmask(blb(uint64(w))))
 //@     exit #count c == min(nplus(n), pc(uint64(b))) && cursor == pos + c
-//@     exit #members(count,range) forall k int :: 0 <= k && k < c ==> member(b, uint64(s[pos+k]-add)) && rrank(b, uint64(s[pos+k]-add)) == k
+//@     exit #members(count,range) forall p int :: pos <= p && p < pos + c ==> member(b, uint64(s[p]-add)) && rrank(b, uint64(s[p]-add)) == p - pos
 //
 //@ func Bit64.RIterAsI32
 //@   requires 0 <= pos && pos <= len(s) && min(nplus(n), pc(uint64(b))) <= len(s) - pos
 //@   ensures #count result == min(nplus(n), pc(uint64(b)))
-//@   ensures #members(count,range) forall k int :: 0 <= k && k < result ==> member(b, uint64(s[pos+k]-add)) && rrank(b, uint64(s[pos+k]-add)) == k
+//@   ensures #members(count,range) forall p int :: pos <= p && p < pos + result ==> member(b, uint64(s[p]-add)) && rrank(b, uint64(s[p]-add)) == p - pos
 //@   modifies s[pos : pos+min(nplus(n), pc(uint64(b)))]
 //@   loop 1
 //@     invariant #range -1 <= i && i <= 63 && uint64(w) == uint64(b) & lowmask(uint64(i)+1) && uint64(w) != 0 && l == pc(uint64(b))
 //@     invariant #count c == rrank(b, uint64(i)) && cursor == pos + c && 0 <= c && c <= nplus(n)
-//@     invariant #members(count,range) forall k int :: 0 <= k && k < c ==> member(b, uint64(s[pos+k]-add)) && rrank(b, uint64(s[pos+k]-add)) == k
+//@     invariant #members(count,range) forall p int :: pos <= p && p < pos + c ==> member(b, uint64(s[p]-add)) && rrank(b, uint64(s[p]-add)) == p - pos
 //@     use [range,count] pc_add(uint64(b) & ^lowmask(uint64(i)+1), uint64(i)), pc_split(uint64(b), uint64(i)+1), pc_split(uint64(b), uint64(i)), pc_zero(uint64(b) & lowmask(uint64(i)+1)), pc_zero(uint64(b) & lowmask(uint64(i))), pc_zero(uint64(b) & ^lowmask(uint64(i)+1))
 //@     exit #count c == min(nplus(n), pc(uint64(b))) && cursor == pos + c
-//@     exit #members(count,range) forall k int :: 0 <= k && k < c ==> member(b, uint64(s[pos+k]-add)) && rrank(b, uint64(s[pos+k]-add)) == k
+//@     exit #members(count,range) forall p int :: pos <= p && p < pos + c ==> member(b, uint64(s[p]-add)) && rrank(b, uint64(s[p]-add)) == p - pos
 //@   loop 2
 //@     invariant #range uint64(w) == uint64(b) & lowmask(blb(uint64(w))) && l == pc(uint64(b))
 //@     invariant #count c == pc(uint64(b) & ^lowmask(blb(uint64(w)))) && cursor == pos + c && 0 <= c && c <= nplus(n)
-//@     invariant #members(count,range) forall k int :: 0 <= k && k < c ==> member(b, uint64(s[pos+k]-add)) && rrank(b, uint64(s[pos+k]-add)) == k
+//@     invariant #members(count,range) forall p int :: pos <= p && p < pos + c ==> member(b, uint64(s[p]-add)) && rrank(b, uint64(s[p]-add)) == p - pos
 //@     use [range,count] bl_def(uint64(w)), bl_def(uint64(w) & ^(uint64(1) << (blb(uint64(w))-1))), pc_add(uint64(b) & ^lowmask(blb(uint64(w))), blb(uint64(w))-1), pc_split(uint64(b), blb(uint64(w))), pc_zero(uint64(w)), pc_zero(uint64(b) & ^lowmask(blb(uint64(w))))
 //@     exit #count c == min(nplus(n), pc(uint64(b))) && cursor == pos + c
-//@     exit #members(count,range) forall k int :: 0 <= k && k < c ==> member(b, uint64(s[pos+k]-add)) && rrank(b, uint64(s[pos+k]-add)) == k
+//@     exit #members(count,range) forall p int :: pos <= p && p < pos + c ==> member(b, uint64(s[p]-add)) && rrank(b, uint64(s[p]-add)) == p - pos
 //
 //@ func Bit64.RIterAsU32
 //@   requires 0 <= pos && pos <= len(s) && min(nplus(n), pc(uint64(b))) <= len(s) - pos
 //@   ensures #count result == min(nplus(n), pc(uint64(b)))
-//@   ensures #members(count,range) forall k int :: 0 <= k && k < result ==> member(b, uint64(s[pos+k]-add)) && rrank(b, uint64(s[pos+k]-add)) == k
+//@   ensures #members(count,range) forall p int :: pos <= p && p < pos + result ==> member(b, uint64(s[p]-add)) && rrank(b, uint64(s[p]-add)) == p - pos
 //@   modifies s[pos : pos+min(nplus(n), pc(uint64(b)))]
 //@   loop 1
 //@     invariant #range -1 <= i && i <= 63 && uint64(w) == uint64(b) & lowmask(uint64(i)+1) && uint64(w) != 0 && l == pc(uint64(b))
 //@     invariant #count c == rrank(b, uint64(i)) && cursor == pos + c && 0 <= c && c <= nplus(n)
-//@     invariant #members(count,range) forall k int :: 0 <= k && k < c ==> member(b, uint64(s[pos+k]-add)) && rrank(b, uint64(s[pos+k]-add)) == k
+//@     invariant #members(count,range) forall p int :: pos <= p && p < pos + c ==> member(b, uint64(s[p]-add)) && rrank(b, uint64(s[p]-add)) == p - pos
 //@     use [range,count] pc_add(uint64(b) & ^lowmask(uint64(i)+1), uint64(i)), pc_split(uint64(b), uint64(i)+1), pc_split(uint64(b), uint64(i)), pc_zero(uint64(b) & lowmask(uint64(i)+1)), pc_zero(uint64(b) & lowmask(uint64(i))), pc_zero(uint64(b) & ^lowmask(uint64(i)+1))
 //@     exit #count c == min(nplus(n), pc(uint64(b))) && cursor == pos + c
-//@     exit #members(count,range) forall k int :: 0 <= k && k < c ==> member(b, uint64(s[pos+k]-add)) && rrank(b, uint64(s[pos+k]-add)) == k
+//@     exit #members(count,range) forall p int :: pos <= p && p < pos + c ==> member(b, uint64(s[p]-add)) && rrank(b, uint64(s[p]-add)) == p - pos
 //@   loop 2
 //@     invariant #range uint64(w) == uint64(b) & lowmask(blb(uint64(w))) && l == pc(uint64(b))
 //@     invariant #count c == pc(uint64(b) & ^lowmask(blb(uint64(w)))) && cursor == pos + c && 0 <= c && c <= nplus(n)
-//@     invariant #members(count,range) forall k int :: 0 <= k && k < c ==> member(b, uint64(s[pos+k]-add)) && rrank(b, uint64(s[pos+k]-add)) == k
+//@     invariant #members(count,range) forall p int :: pos <= p && p < pos + c ==> member(b, uint64(s[p]-add)) && rrank(b, uint64(s[p]-add)) == p - pos
 //@     use [range,count] bl_def(uint64(w)), bl_def(uint64(w) & ^(uint64(1) << (blb(uint64(w))-1))), pc_add(uint64(b) & ^lowmask(blb(uint64(w))), blb(uint64(w))-1), pc_split(uint64(b), blb(uint64(w))), pc_zero(uint64(w)), pc_zero(uint64(b) & ^lowmask(blb(uint64(w))))
 //@     exit #count c == min(nplus(n), pc(uint64(b))) && cursor == pos + c
-//@     exit #members(count,range) forall k int :: 0 <= k && k < c ==> member(b, uint64(s[pos+k]-add)) && rrank(b, uint64(s[pos+k]-add)) == k
+//@     exit #members(count,range) forall p int :: pos <= p && p < pos + c ==> member(b, uint64(s[p]-add)) && rrank(b, uint64(s[p]-add)) == p - pos
 //
 //@ func Bit64.RIterAsI16
 //@   requires 0 <= pos && pos <= len(s) && min(nplus(n), pc(uint64(b))) <= len(s) - pos
 //@   ensures #count result == min(nplus(n), pc(uint64(b)))
-//@   ensures #members(count,range) forall k int :: 0 <= k && k < result ==> member(b, uint64(s[pos+k]-add)) && rrank(b, uint64(s[pos+k]-add)) == k
+//@   ensures #members(count,range) forall p int :: pos <= p && p < pos + result ==> member(b, uint64(s[p]-add)) && rrank(b, uint64(s[p]-add)) == p - pos
 //@   modifies s[pos : pos+min(nplus(n), pc(uint64(b)))]
 //@   loop 1
 //@     invariant #range -1 <= i && i <= 63 && uint64(w) == uint64(b) & lowmask(uint64(i)+1) && uint64(w) != 0 && l == pc(uint64(b))
 //@     invariant #count c == rrank(b, uint64(i)) && cursor == pos + c && 0 <= c && c <= nplus(n)
-//@     invariant #members(count,range) forall k int :: 0 <= k && k < c ==> member(b, uint64(s[pos+k]-add)) && rrank(b, uint64(s[pos+k]-add)) == k
+//@     invariant #members(count,range) forall p int :: pos <= p && p < pos + c ==> member(b, uint64(s[p]-add)) && rrank(b, uint64(s[p]-add)) == p - pos
 //@     use [range,count] pc_add(uint64(b) & ^lowmask(uint64(i)+1), uint64(i)), pc_split(uint64(b), uint64(i)+1), pc_split(uint64(b), uint64(i)), pc_zero(uint64(b) & lowmask(uint64(i)+1)), pc_zero(uint64(b) & lowmask(uint64(i))), pc_zero(uint64(b) & ^lowmask(uint64(i)+1))
 //@     exit #count c == min(nplus(n), pc(uint64(b))) && cursor == pos + c
-//@     exit #members(count,range) forall k int :: 0 <= k && k < c ==> member(b, uint64(s[pos+k]-add)) && rrank(b, uint64(s[pos+k]-add)) == k
+//@     exit #members(count,range) forall p int :: pos <= p && p < pos + c ==> member(b, uint64(s[p]-add)) && rrank(b, uint64(s[p]-add)) == p - pos
 //@   loop 2
 //@     invariant #range uint64(w) == uint64(b) & lowmask(blb(uint64(w))) && l == pc(uint64(b))
 //@     invariant #count c == pc(uint64(b) & ^lowmask(blb(uint64(w)))) && cursor == pos + c && 0 <= c && c <= nplus(n)
-//@     invariant #members(count,range) forall k int :: 0 <= k && k < c ==> member(b, uint64(s[pos+k]-add)) && rrank(b, uint64(s[pos+k]-add)) == k
+//@     invariant #members(count,range) forall p int :: pos <= p && p < pos + c ==> member(b, uint64(s[p]-add)) && rrank(b, uint64(s[p]-add)) == p - pos
 //@     use [range,count] bl_def(uint64(w)), bl_def(uint64(w) & ^(uint64(1) << (blb(uint64(w))-1))), pc_add(uint64(b) & ^lowmask(blb(uint64(w))), blb(uint64(w))-1), pc_split(uint64(b), blb(uint64(w))), pc_zero(uint64(w)), pc_zero(uint64(b) & ^lowmask(blb(uint64(w))))
 //@     exit #count c == min(nplus(n), pc(uint64(b))) && cursor == pos + c
-//@     exit #members(count,range) forall k int :: 0 <= k && k < c ==> member(b, uint64(s[pos+k]-add)) && rrank(b, uint64(s[pos+k]-add)) == k
+//@     exit #members(count,range) forall p int :: pos <= p && p < pos + c ==> member(b, uint64(s[p]-add)) && rrank(b, uint64(s[p]-add)) == p - pos
 //
 //@ func Bit64.RIterAsI8
 //@   requires 0 <= pos && pos <= len(s) && min(nplus(n), pc(uint64(b))) <= len(s) - pos
 //@   ensures #count result == min(nplus(n), pc(uint64(b)))
-//@   ensures #members(count,range) forall k int :: 0 <= k && k < result ==> member(b, uint64(s[pos+k]-add)) && rrank(b, uint64(s[pos+k]-add)) == k
+//@   ensures #members(count,range) forall p int :: pos <= p && p < pos + result ==> member(b, uint64(s[p]-add)) && rrank(b, uint64(s[p]-add)) == p - pos
 //@   modifies s[pos : pos+min(nplus(n), pc(uint64(b)))]
 //@   loop 1
 //@     invariant #range -1 <= i && i <= 63 && uint64(w) == uint64(b) & lowmask(uint64(i)+1) && uint64(w) != 0 && l == pc(uint64(b))
 //@     invariant #count c == rrank(b, uint64(i)) && cursor == pos + c && 0 <= c && c <= nplus(n)
-//@     invariant #members(count,range) forall k int :: 0 <= k && k < c ==> member(b, uint64(s[pos+k]-add)) && rrank(b, uint64(s[pos+k]-add)) == k
+//@     invariant #members(count,range) forall p int :: pos <= p && p < pos + c ==> member(b, uint64(s[p]-add)) && rrank(b, uint64(s[p]-add)) == p - pos
 //@     use [range,count] pc_add(uint64(b) & ^lowmask(uint64(i)+1), uint64(i)), pc_split(uint64(b), uint64(i)+1), pc_split(uint64(b), uint64(i)), pc_zero(uint64(b) & lowmask(uint64(i)+1)), pc_zero(uint64(b) & lowmask(uint64(i))), pc_zero(uint64(b) & ^lowmask(uint64(i)+1))
 //@     exit #count c == min(nplus(n), pc(uint64(b))) && cursor == pos + c
-//@     exit #members(count,range) forall k int :: 0 <= k && k < c ==> member(b, uint64(s[pos+k]-add)) && rrank(b, uint64(s[pos+k]-add)) == k
+//@     exit #members(count,range) forall p int :: pos <= p && p < pos + c ==> member(b, uint64(s[p]-add)) && rrank(b, uint64(s[p]-add)) == p - pos
 //@   loop 2
 //@     invariant #range uint64(w) == uint64(b) & lowmask(blb(uint64(w))) && l == pc(uint64(b))
 //@     invariant #count c == pc(uint64(b) & ^lowmask(blb(uint64(w)))) && cursor == pos + c && 0 <= c && c <= nplus(n)
-//@     invariant #members(count,range) forall k int :: 0 <= k && k < c ==> member(b, uint64(s[pos+k]-add)) && rrank(b, uint64(s[pos+k]-add)) == k
+//@     invariant #members(count,range) forall p int :: pos <= p && p < pos + c ==> member(b, uint64(s[p]-add)) && rrank(b, uint64(s[p]-add)) == p - pos
 //@     use [range,count] bl_def(uint64(w)), bl_def(uint64(w) & ^(uint64(1) << (blb(uint64(w))-1))), pc_add(uint64(b) & ^lowmask(blb(uint64(w))), blb(uint64(w))-1), pc_split(uint64(b), blb(uint64(w))), pc_zero(uint64(w)), pc_zero(uint64(b) & ^lowmask(blb(uint64(w))))
 //@     exit #count c == min(nplus(n), pc(uint64(b))) && cursor == pos + c
-//@     exit #members(count,range) forall k int :: 0 <= k && k < c ==> member(b, uint64(s[pos+k]-add)) && rrank(b, uint64(s[pos+k]-add)) == k
+//@     exit #members(count,range) forall p int :: pos <= p && p < pos + c ==> member(b, uint64(s[p]-add)) && rrank(b, uint64(s[p]-add)) == p - pos
 //
 //@ func Bit64.getNAsI64
 //@   requires n >= 0
